@@ -1,7 +1,7 @@
 (* C14, the workspace level: parse_workspace -> collector -> reconcile -> multi_plan -> used_imports.
    Partition (against Spec.C14Spec.crate_items and against the single-file run), import soundness in the
    spec's terms, import completeness on dom_C14.  All for arbitrary workspaces and arbitrary order oracles. *)
-From Coq Require Import List Bool Lia ZifyBool ZifyN Permutation String.
+From Coq Require Import List Bool Lia ZifyBool ZifyN Permutation String FinFun.
 From TS Require Import Model.Str Model.Outcome Model.Unicode Model.Syntax Model.Attrs Model.Rename Model.Types Model.Parse
                        Model.Reconcile Model.Collect Model.Lang.Common Model.MultiFile.
 From TS Require Model.Writer.
@@ -291,6 +291,14 @@ Proof.
   - intros p Hp. destruct (plan_entry p Hp) as (Hin & _). unfold cs in Hin.
     destruct (multi_crates_entry ho_crate arrivals _ _ Hin) as (pds & rn & <- & _ & ->).
     rewrite (crate_items_arrivals (op_crate p) ws arrivals HW). apply entry_decls.
+Qed.
+
+(* outside Swift two crates never share a file name *)
+Theorem plan_files_distinct : l <> Swift -> NoDup (map op_file plan).
+Proof.
+  intros Hl. replace (map op_file plan) with (map (output_file_name l) (map op_crate plan)).
+  - apply FinFun.Injective_map_NoDup; [intros a b; now apply output_file_name_injective|rewrite plan_crates; apply multi_crates_nodup].
+  - rewrite map_map. apply map_ext_in. intros p Hp. symmetry. apply (plan_entry p Hp).
 Qed.
 
 (* the union over the files = what single-file mode generates from the same sources *)
